@@ -330,11 +330,10 @@ impl<'a> Dfs<'a> {
                 return Some((serde_json::to_value(&case).unwrap(), sig, msg));
             }
             let nontrivial = (dup && seq.iter().any(|o| !o.0)) || evict || absent;
-            let key = hash64(&(&self.cfg, &self.rng.script, self.rng.tail, &seq[..]));
             {
                 let s = &*seq;
                 let cfg = &self.cfg;
-                acc.pass_light(nontrivial, key, || json!({"cfg": cfg, "ops(is_insert,key_index)": s}));
+                acc.pass_enum(nontrivial, || json!({"cfg": cfg, "ops(is_insert,key_index)": s}));
             }
             if evict {
                 acc.class("eviction");
